@@ -19,6 +19,9 @@ pub(crate) mod table;
 
 pub(crate) mod table_spec;
 pub(crate) mod uf;
+/// Coverage counters for the external verification harness (feature `verif-hooks`).
+#[cfg(feature = "verif-hooks")]
+pub mod verif;
 
 #[cfg(test)]
 mod tests;
